@@ -24,6 +24,7 @@ from allmydata.mutable.common import (
     MODE_READ,
     MODE_WRITE,
     MODE_CHECK,
+    MODE_REPAIR,
     UnrecoverableFileError,
     UncoordinatedWriteError,
     derive_mutable_keys,
@@ -387,7 +388,16 @@ class MutableFileNode:
         recoverable version that I can find in there.
         """
         # XXX: wording ^^^^
-        if servermap and servermap.get_last_update()[0] == mode:
+        # A servermap that was updated in a more thorough mode than the one
+        # asked for is (at least) as good: in particular the repairer and
+        # download_version() hand us a MODE_REPAIR/MODE_CHECK/MODE_WRITE map
+        # for a read. Replacing it with a fresh MODE_READ map would forget
+        # every share beyond the first k found.
+        if servermap and (servermap.get_last_update()[0] == mode or
+                          (mode == MODE_READ and
+                           servermap.get_last_update()[0] in (MODE_WRITE,
+                                                              MODE_CHECK,
+                                                              MODE_REPAIR))):
             d = defer.succeed(servermap)
         else:
             d = self._get_servermap(mode)
